@@ -162,7 +162,7 @@ func genScanners(c *ctx) {
 		for _, fn := range detFns {
 			step := 1
 			if len(t) > 300 {
-				step = len(t) / 40
+				step = len(t) / c.pick(8, 40)
 			}
 			for k := 0; k <= len(t); k += step {
 				sc.run(fn, 0, detBound(k), t[:k])
@@ -250,7 +250,9 @@ func genScanners(c *ctx) {
 		sc.run("readline-windows", 0, 2*len(s)+8, s)
 		c12Cuts2(s, func(a, b []byte) { sc.run("readline-windows", 0, 2*len(s)+8, a, b) })
 		for mode := 0; mode < 8; mode++ {
-			sc.run("recv-line", mode, 2*len(s)+8, s)
+			if c.thorough() || len(s) <= 2 || mode%3 == len(s)%3 {
+				sc.run("recv-line", mode, 2*len(s)+8, s)
+			}
 		}
 	})
 	for i := 0; i < c.pick(2000, 40000); i++ {
@@ -303,6 +305,9 @@ func genScanners(c *ctx) {
 			}
 		}
 		for which, f := range []func([]byte) (string, string, string){trzsz.VerifRelayDecode, trzsz.VerifRecvCheckSplit} {
+			if which == 1 && len(line) == 5 && !c.thorough() {
+				continue // a transfer object per call: the longest exhaustive stratum only through the relay's decoder
+			}
 			name := []string{"relay-decode-split", "recvcheck-split"}[which]
 			sc.calls[name]++
 			class, typ, p := f(line)
@@ -319,7 +324,9 @@ func genScanners(c *ctx) {
 			default:
 				res = "?" + class
 			}
-			c.emit(true, "c12_line_split", res, hx(line))
+			if len(line) <= 4096 { // the extracted model works on lists: megabyte lines only through the direct oracle
+				c.emit(true, "c12_line_split", res, hx(line))
+			}
 		}
 	}
 	hostileLines := []string{"", ":", ":wq", "::", "#", "#:", "#:x", "#ACT", "#ACT:", "ACT:x", "x:#ACT:y", "#ACT:!!!", "#ACT:QUJD", ":#ACT:" + c12B64z([]byte("{}")),
@@ -331,11 +338,14 @@ func genScanners(c *ctx) {
 		splitLine([]byte(l))
 		sc.run("relay-decode", 0, 1<<30, []byte(l))
 		for mode := 0; mode < 4; mode++ {
-			for _, nlv := range []string{"\n", "!\n", "\r\n"} {
+			for ni, nlv := range []string{"\n", "!\n", "\r\n"} {
+				if !c.thorough() && len(l) > 100000 && (mode != ni || mode > 1) {
+					continue // megabyte lines: plain reader with "\n", Windows reader with "!\n"
+				}
 				full := []byte(l + nlv)
 				sc.run("relay-recv-act", mode, 4*len(full)+64, full)
 				sc.run("relay-recv-cfg", mode, 4*len(full)+64, full)
-				if len(full) < 200 {
+				if len(full) < 200 && (mode == 0 || c.thorough()) {
 					c12Cuts2(full, func(a, b []byte) {
 						sc.run("relay-recv-act", mode, 4*len(full)+64, a, b)
 						sc.run("relay-recv-cfg", mode, 4*len(full)+64, a, b)
@@ -347,12 +357,12 @@ func genScanners(c *ctx) {
 	c12AllStrings([]byte("#:ACT=x"), c.pick(5, 6), func(s []byte) {
 		splitLine(s)
 		sc.run("relay-decode", 0, 1<<30, s)
-		if len(s) <= 4 {
+		if len(s) <= 3 || c.thorough() && len(s) <= 4 {
 			sc.run("relay-recv-act", len(s)%4, 64, append(append([]byte(nil), s...), '\n'))
 			sc.run("relay-recv-cfg", len(s)%4, 64, append(append([]byte(nil), s...), '!', '\n'))
 		}
 	})
-	for i := 0; i < c.pick(2000, 40000); i++ {
+	for i := 0; i < c.pick(1000, 40000); i++ {
 		l := rnd([]byte("#:ACTCFG=!x"), 16)
 		splitLine(l)
 		sc.run("relay-recv-act", c.rng.Intn(4), 4*len(l)+64, l, []byte("\n"))
